@@ -185,7 +185,9 @@ func runC23(c *core.Ctx) {
 		_ = q
 		// S3 same fee value
 		var debit, collected ssa.Value
-		for _, in := range core.CallsIn(fn, func(in ssa.Instruction, cc *ssa.CallCommon) bool { return cc.IsInvoke() && cc.Value == snd && cc.Method.Name() == "SubFromBalance" }) {
+		for _, in := range core.CallsIn(fn, func(in ssa.Instruction, cc *ssa.CallCommon) bool {
+			return cc.IsInvoke() && cc.Value == snd && cc.Method.Name() == "SubFromBalance"
+		}) {
 			debit = core.CallOf(in).Args[0]
 		}
 		for _, in := range core.CallsIn(fn, func(in ssa.Instruction, cc *ssa.CallCommon) bool { return isInvoke(cc, "ProcessTransactionFee") }) {
